@@ -126,4 +126,28 @@ Section Ops.
     | Dct gl => Some (flat_map (fun k => match assoc k gl with Some v => [v] | None => [] end) keys)
     | _ => None
     end.
+
+  (* seq[a:b:s] with any step: the slice selects the DISTINCT positions sigma = range( *slice(a,b,s).indices(len))
+     (read off Python); container_take gathers those children, container_untake stores the cotangent's children at
+     those positions of zeros of the container's space *)
+  Fixpoint gather_sel (l : list tree) (sigma : list nat) : option (list tree) :=
+    match sigma with
+    | [] => Some []
+    | i :: s => match nth_error l i, gather_sel l s with
+                | Some c, Some cs => Some (c :: cs)
+                | _, _ => None
+                end
+    end.
+  Fixpoint store_sel (u : list tree) (sigma : list nat) (gl : list tree) : list tree :=
+    match sigma, gl with
+    | i :: s, g :: gs => store_sel (replace_nth i g u) s gs
+    | _, _ => u
+    end.
+  Definition take_sel (x : tree) (sigma : list nat) : option tree :=
+    match x with Seq t l => option_map (Seq t) (gather_sel l sigma) | _ => None end.
+  Definition untake_sel (g : tree) (sigma : list nat) (v : vs) : option tree :=
+    match v, g with
+    | VSeq t vl, Seq _ gl => Some (Seq t (store_sel (map zeros vl) sigma gl))
+    | _, _ => None
+    end.
 End Ops.
